@@ -25,7 +25,8 @@ RULE = (
     "{base + every symmetric one-hot, 2 fixed pseudo-random symmetric, idempotent} closed shell and {(P/2,P/2), "
     "(rand_a,rand_b), idempotent n_a != n_b, base/2 + one-hot in the alpha block} open shell; one lattice point = one "
     "diatomic pushed through the real hcore/overlap/fock/fock_u_batch/G/response/pair_nuclear_energy kernels and "
-    "compared block by block with the scalar reference model; distinct = distinct (method, pair, R, orientation); "
+    "compared block by block (overlap, the 22 local and 100 rotated two-centre integrals, Hcore AA/BB/AB, E_nuc, every Fock "
+    "matrix) with the scalar reference model; distinct = distinct (method, pair, R, orientation); "
     "plus SCF single points of the molecule alphabet (E_elec[P], E_nuc, E_iso, E_tot, Hf and the reference SCF "
     "restarted from the package density). quick tier: X-H, X-X and a fixed list of mixed pairs, 5 distances."
 )
@@ -44,11 +45,29 @@ ASSUMPTIONS = [
     "(mu nu|la si) = (nu mu|la si) is structural in the packed storage of w and is not an observation; the centre "
     "exchange (mu nu|la si)(d) = (la si|mu nu)(-d) is checked on homonuclear pairs",
     "SCF totals: the reference SCF is restarted from the package's converged density (same basin); molecules the "
-    "package reports not converged are excluded and counted",
+    "package reports not converged are excluded and counted; the reference SCF from its own start is informative only",
+    "the shipped CSV parameter tables are an input shared by the package and the reference (own reader): a wrong digit "
+    "in a table is invisible to this check",
 ]
 
 R_FULL = [0.6, 0.9, 1.2, 1.6, 2.2, 3.0, 5.0, 8.0, 15.0]
 R_QUICK = [0.6, 1.2, 2.2, 5.0, 15.0]
+R_EXTRA = [0.75, 1.05, 1.4, 1.9, 2.6, 3.9, 6.5, 11.0]  # thorough only: second grid between the stated distances
+
+
+def boundary_distances(method, ZA, ZB):
+    """thorough only: one distance just below and one just above the junction |R (zeta_a - zeta_b)/2| = 0.5 of the
+    B-integral algorithm (series <-> recursion) for the s-s and p-p exponent pairs, when it falls inside 0.6-15 A."""
+    A, B = NR.Atom(method, ZA), NR.Atom(method, ZB)
+    out = []
+    for za, zb in ((A.zs, B.zs), (A.zp, B.zp), (A.zp, B.zs), (A.zs, B.zp)):
+        if za > 0 and zb > 0 and abs(za - zb) > 1e-9:
+            Rstar = 1.0 / abs(za - zb) * NR.A0
+            if 0.6 <= Rstar <= 15.0:
+                out += [round(Rstar * 0.999, 6), round(Rstar * 1.001, 6)]
+            if len(out) >= 4:
+                break
+    return out
 TOL_INT = 1e-7  # eV, two-centre integrals (DESIGN.md C06: sketch agreed to 3e-10; secant gap bound 1e-8)
 TOL_S = 1e-9  # overlaps
 TOL_ID = 1e-10  # reference-free identities: pure rounding (|F| <= 150 eV, eps 2e-16, < 100 operations)
@@ -69,8 +88,9 @@ def directions(tier, seed):
     d = [("+x", [1, 0, 0]), ("-x", [-1, 0, 0]), ("+y", [0, 1, 0]), ("-y", [0, -1, 0]), ("+z", [0, 0, 1]), ("-z", [0, 0, -1])]
     d += [("+g", g.tolist()), ("-g", (-g).tolist())]
     if tier != "quick":
-        g2 = _GEN[(seed + 2) % 5] / np.linalg.norm(_GEN[(seed + 2) % 5])
-        d += [("+g2", g2.tolist()), ("-g2", (-g2).tolist())]
+        for k, lab in ((2, "g2"), (3, "g3")):
+            g2 = _GEN[(seed + k) % 5] / np.linalg.norm(_GEN[(seed + k) % 5])
+            d += [("+" + lab, g2.tolist()), ("-" + lab, (-g2).tolist())]
     return [(n, [float(x) for x in v]) for n, v in d]
 
 
@@ -178,6 +198,15 @@ def eval_pair(task):
             Wl = NR.rotate4(Wp, A, B, pr["E"].T)
             bad = [nm for nm, ix in NR.LOCAL22 if max(ix[:2]) < nA and max(ix[2:]) < nB and abs(Wl[ix] - pr["local"].W[ix]) > TOL_INT]
             c.fails[-1]["sub"] = ",".join(bad[:6]) or "rotation"
+        # the 22 (X-X) / 4 (X-H) unique local-frame integrals hcore returns for the gradient code; the package's
+        # sigma axis points from B to A, the reference's from A to B: odd powers of p_sigma change sign
+        ril = h["ri"] if (nA == 4 and nB == 4) else (h["riXH"] if nA == 4 else None)
+        if ril is not None:
+            names22 = NR.LOCAL22 if nB == 4 else NR.LOCAL22[:4]
+            ref22 = np.array([(-1.0) ** nm.count("o") * pr["local"].W[ix] for nm, ix in names22])
+            okl = c.block("ri_local", ril[i], ref22, TOL_INT)
+            if not okl:
+                c.fails[-1]["sub"] = ",".join(nm for (nm, _), a_, b_ in zip(names22, ril[i], ref22) if abs(a_ - b_) > TOL_INT)[:80]
         Wfull = h["W"][i].copy()
         Wfull[:nA, :nA, :nB, :nB] = 0.0
         c.block("w_padding", Wfull, 0.0, 0.0)
@@ -327,7 +356,36 @@ def eval_scf(task):
         return dict(notconverged=True)
     mod = NR.Model(method, mol["species"], mol["coords"])
     c = _Cmp()
-    npairs = len(mod.enuc_pairs)
+    # block level, polyatomic: assembly of Hcore from several neighbours, J/K scatter over several pairs
+    from ..drivers.nddo import MolKernels
+
+    mk = MolKernels(mol, method, uhf=uhf)
+    hk = mk.hcore()
+    for (i, j), Wp in hk["W"].items():
+        A, B = mod.atoms[i], mod.atoms[j]
+        c.block("mol_w", Wp[: A.nao, : A.nao, : B.nao, : B.nao], mod.pairs[(i, j)]["W"], TOL_INT, sub=f"atoms {i},{j}")
+    # tolerance of an Hcore element: diagonal blocks sum the attraction of all other cores, off-diagonal beta*S
+    zsum = sum(a.core for a in mod.atoms)
+    bmax = max(max(abs(a.bs), abs(a.bp)) for a in mod.atoms)
+    c.block("mol_hcore", hk["H"], mod.H, TOL_INT * zsum + TOL_S * bmax)
+    n = mod.nbas
+    rnd = _random_sym(n, task["rot"] if task["rot"] is not None else 3)
+    tolF = lambda P: TOL_INT * (zsum + 1.5 * float(np.sum(np.abs(P)))) + TOL_S * bmax  # noqa: E731
+    if uhf:
+        Fa, Fb = mk.fock_u(*pk["P"])
+        ra, rb = mod.fock_open(*pk["P"])
+        t = tolF(np.abs(pk["P"][0]) + np.abs(pk["P"][1])) * 2
+        c.block("mol_fock_u", Fa, ra, t, sub="alpha P=scf")
+        c.block("mol_fock_u", Fb, rb, t, sub="beta P=scf")
+        rnd_b = _random_sym(n, 4)
+        Fa, Fb = mk.fock_u(rnd, rnd_b)
+        ra, rb = mod.fock_open(rnd, rnd_b)
+        t = tolF(np.abs(rnd) + np.abs(rnd_b)) * 2
+        c.block("mol_fock_u", Fa, ra, t, sub="alpha P=random")
+        c.block("mol_fock_u", Fb, rb, t, sub="beta P=random")
+    else:
+        c.block("mol_fock", mk.fock(pk["P"]), mod.fock_closed(pk["P"]), tolF(pk["P"]), sub="P=scf")
+        c.block("mol_fock", mk.fock(rnd), mod.fock_closed(rnd), tolF(rnd), sub="P=random")
     tol_nuc = sum(TOL_INT * mod.atoms[i].core * mod.atoms[j].core * 3.0 for (i, j) in mod.enuc_pairs) + 1e-12 * abs(mod.enuc)
     c.block("scf_enuc", pk["Enuc"], mod.enuc, tol_nuc)
     c.block("scf_eiso", pk["Eiso"], mod.eiso(), 1e-10 * abs(mod.eiso()) + 1e-12)
@@ -361,6 +419,12 @@ def eval_scf(task):
             c.block("scf_etot", pk["Etot"], r["Etot"], tol_el + tol_nuc + 1e-7)
         else:
             info["left_basin"] = True
+    # the reference's own SCF from its own start (informative: another basin is not a defect)
+    r2 = mod.scf(charge=mol["charge"], mult=mol["mult"], uhf=uhf, P0=None, damp=0.5, tol=1e-10, maxit=600)
+    info["indep_converged"] = bool(r2["converged"])
+    if r2["converged"]:
+        info["indep_dE"] = float(r2["Etot"] - pk["Etot"])
+        info["indep_same"] = bool(abs(info["indep_dE"]) <= tol_el + tol_nuc + 1e-7)
     return dict(ncomp=c.n, fails=c.fails, dev=c.dev, info=info, name=mol.get("name"), nbas=mod.nbas)
 
 
@@ -403,7 +467,7 @@ UPSTREAM = {
     "hcore_AB": ["overlap"], "hcore_AA": ["w"], "hcore_BB": ["w"], "G": ["w"], "response": ["w"], "enuc": ["w"],
     "fock": ["w", "overlap", "hcore_AA", "hcore_BB", "hcore_AB"],
     "fock_u": ["w", "overlap", "hcore_AA", "hcore_BB", "hcore_AB"],
-    "linearity": ["fock_symmetric"], "w_inversion": [], "overlap_inversion": [],
+    "linearity": ["fock_symmetric"], "w_inversion": [], "overlap_inversion": [], "w": ["ri_local"],
 }  # fmt: skip
 
 
@@ -466,9 +530,12 @@ def run(chk, tier, seed):
     tasks = []
     for method in METHODS:
         for ZA, ZB in pair_list(method, tier):
-            tasks.append(dict(method=method, ZA=ZA, ZB=ZB, Rs=Rs, dirs=dirs, seed=seed))
+            rs = list(Rs)
+            if tier != "quick":
+                rs = sorted(set(rs + R_EXTRA + boundary_distances(method, ZA, ZB)))
+            tasks.append(dict(method=method, ZA=ZA, ZB=ZB, Rs=rs, dirs=dirs, seed=seed))
     stasks = scf_tasks(tier, seed)
-    chk.planned = len(tasks) * len(Rs) * len(dirs) + len(stasks)
+    chk.planned = sum(len(t["Rs"]) for t in tasks) * len(dirs) + len(stasks)
 
     # determinism: the same task in two processes must agree bitwise
     t0 = dict(method="AM1", ZA=8, ZB=1, Rs=[1.2], dirs=dirs[:2] + dirs[6:8], seed=seed)
@@ -518,7 +585,7 @@ def run(chk, tier, seed):
 
     # SCF section
     sres = pmap(eval_scf, stasks, chunk=2, timeout=900, progress="C06 SCF alphabet")
-    info = dict(left_basin=0, ref_not_converged=0, max_dP=0.0)
+    info = dict(left_basin=0, ref_not_converged=0, max_dP=0.0, indep_start_same_energy=0, indep_start_other_solution=0, indep_start_not_converged=0)
     for t, r in zip(stasks, sres):
         nm = t.get("name") or f"pair{t['ZA']}-{t['ZB']}"
         key = f"scf|{t['method']}|{nm}|rot={t['rot']}|uhf={bool(t.get('uhf'))}"
@@ -546,6 +613,15 @@ def run(chk, tier, seed):
             info["left_basin"] += 1
         if not r["info"]["ref_converged"]:
             info["ref_not_converged"] += 1
+        if not r["info"].get("indep_converged"):
+            info["indep_start_not_converged"] += 1
+        elif r["info"].get("indep_same"):
+            info["indep_start_same_energy"] += 1
+        else:
+            info["indep_start_other_solution"] += 1
+            info.setdefault("other_solution_examples", [])
+            if len(info["other_solution_examples"]) < 8:
+                info["other_solution_examples"].append(dict(case=key, dE_ref_minus_pkg=r["info"].get("indep_dE")))
         info["max_dP"] = max(info["max_dP"], r["info"].get("dP", 0.0) if not r["info"].get("left_basin") else 0.0)
         if r["fails"]:
             # one violation per molecule: the first failing quantity in evaluation order is the most upstream one
@@ -559,7 +635,23 @@ def run(chk, tier, seed):
             )
     chk.extra["max_deviation_seen"] = {q: dict(dev=v[0], at=v[1]) for q, v in sorted(maxdev.items())}
     chk.extra["scf_section"] = info
-    chk.extra["lattice"] = dict(pairs=len(tasks), R=Rs, orientations=[n for n, _ in dirs], scf_molecules=len(stasks))
+    chk.extra["documented_approximations"] = {
+        "mopac_bintgs_series": dict(
+            what="for 1e-6 < |R(zeta_a-zeta_b)/2| <= 0.5 the package (like MOPAC's BINTGS, LAST=6) truncates the power series of the "
+            "B auxiliary integrals after order 6; the reference reproduces this by replacing exp(-beta*eta) with its 6th-order "
+            "Taylor polynomial inside its own quadrature, and the overlaps then agree to the 1e-9 tolerance",
+            max_effect_on_overlap=maxdev.get("overlap_series_effect", (0.0, ""))[0],
+            at=maxdev.get("overlap_series_effect", (0.0, ""))[1],
+            max_package_vs_exact_overlap=maxdev.get("overlap_vs_exact", (0.0, ""))[0],
+        ),
+        "secant5_rho": "rho1/rho2 from a 5-step secant in the package (as in MOPAC) vs exact root in the reference: <= 1.4e-9 bohr, "
+        "integrals differ by <= 5e-9 eV (measured, see max_deviation_seen.w)",
+    }
+    chk.extra["lattice"] = dict(
+        pairs=len(tasks), R=Rs, R_extra=[] if tier == "quick" else R_EXTRA,
+        boundary_distances=sum(len(t["Rs"]) for t in tasks) - len(tasks) * (len(Rs) + (0 if tier == "quick" else len(R_EXTRA))),
+        orientations=[n for n, _ in dirs], scf_molecules=len(stasks),
+    )  # fmt: skip
 
 
 def replay(payload):
